@@ -4,9 +4,12 @@ import (
 	"context"
 	"errors"
 	"fmt"
+	"reflect"
+	"regexp"
 	"sort"
 	"strings"
 	"time"
+	"unsafe"
 
 	"github.com/ipld/go-ipld-prime"
 	"github.com/ipld/go-ipld-prime/node/basicnode"
@@ -50,6 +53,8 @@ type lifeAction struct {
 // life is the lifecycle world shared by C04, C05 and C23.
 type life struct {
 	qStarted, qShutdown map[string]int
+	qInst               map[string]string // queue instance (address) -> node>peer
+	qInstShut           map[string]bool   // instances told to shut down
 	builtIntoShutdown   map[string]bool
 	qLive               map[string]int // message queues alive, by remote peer
 	qMaxLive            map[string]int
@@ -93,6 +98,9 @@ func (s *life) Build(w *World) {
 	s.qLive, s.qMaxLive = map[string]int{}, map[string]int{}
 	w.OnObserve = func(site, detail string, obj any) {
 		name := w.Net.Name(peer.ID(detail))
+		// which node's queue: the queue's network object carries the node's name
+		qkey := mqNodeName(w, obj) + ">" + name
+		inst := fmt.Sprintf("%p", obj)
 		w.mu.Lock()
 		switch site {
 		case "messagequeue.started":
@@ -103,24 +111,46 @@ func (s *life) Build(w *World) {
 		case "messagequeue.exited":
 			s.qLive[name]--
 		case "messagequeue.shutdown":
-			s.qShutdown[name]++
+			s.qShutdown[qkey]++
+			s.qInstShut[inst] = true
 		}
 		if site == "messagequeue.started" {
-			s.qStarted[name]++
+			s.qStarted[qkey]++
+			s.qInst[inst] = qkey
 		}
 		w.mu.Unlock()
 	}
 	// the input class of the recorded C15/C16 finding, seen from the node: something was built into a message
 	// queue after every queue instance started for that peer had been told to shut down
 	s.qStarted, s.qShutdown, s.builtIntoShutdown = map[string]int{}, map[string]int{}, map[string]bool{}
+	s.qInst, s.qInstShut = map[string]string{}, map[string]bool{}
+	// (lock-yield runs) a caller held just before the builders' lock of a queue instance that is told to shut down
+	// meanwhile builds into that instance afterwards, even if a successor is alive by then: same input class
+	buildRe := regexp.MustCompile(`messagequeue\.\(\*MessageQueue\)\.buildMessage\((0x[0-9a-f]+)`)
+	w.LockYieldIn = func(x string, d int) string {
+		if d > 0 {
+			if m := buildRe.FindStringSubmatch(x); m != nil {
+				return "build:" + m[1]
+			}
+			return ""
+		}
+		addr := strings.TrimPrefix(x, "build:")
+		w.mu.Lock()
+		if s.qInstShut[addr] {
+			s.builtIntoShutdown[s.qInst[addr]] = true
+			w.Probes["built-into-queue-shutting-down"]++
+		}
+		w.mu.Unlock()
+		return ""
+	}
 	w.OnYieldSite = func(site, detail, node string, _ any) {
 		if site != "messagequeue.afterBuild" {
 			return
 		}
 		name := w.Net.Name(peer.ID(detail))
 		w.mu.Lock()
-		if s.qStarted[name] > 0 && s.qShutdown[name] >= s.qStarted[name] {
-			s.builtIntoShutdown[node+">"+name] = true
+		if k := node + ">" + name; s.qStarted[k] > 0 && s.qShutdown[k] >= s.qStarted[k] {
+			s.builtIntoShutdown[k] = true
 			w.Probes["built-into-queue-shutting-down"]++
 		}
 		w.mu.Unlock()
@@ -989,3 +1019,20 @@ func netErrBefore(b *Node, id graphsync.RequestID, peerName string) bool {
 // lifeLockYieldFiles: the files of the whole-node lifecycle world that the lock-yield build instruments (the
 // sending path; not the traverser, whose state mutex is handed from one goroutine to another).
 var lifeLockYieldFiles = []string{"messagequeue/messagequeue.go", "responsemanager/responseassembler/responseassembler.go", "responsemanager/responseassembler/peerlinktracker.go", "peermanager/peermanager.go", "notifications/publisher.go", "allocator/allocator.go", "taskqueue/taskqueue.go"}
+
+// mqNodeName names the node a message queue belongs to (its unexported network field is the node's network object,
+// which the node named when it was built); "" if it cannot be told.
+func mqNodeName(w *World, q any) string {
+	v := reflect.ValueOf(q)
+	if v.Kind() != reflect.Ptr || v.IsNil() || v.Elem().Kind() != reflect.Struct {
+		return ""
+	}
+	f := v.Elem().FieldByName("network")
+	if !f.IsValid() || !f.CanAddr() {
+		return ""
+	}
+	net := reflect.NewAt(f.Type(), unsafe.Pointer(f.UnsafeAddr())).Elem().Interface()
+	w.mu.Lock()
+	defer w.mu.Unlock()
+	return w.objNames[net]
+}
